@@ -133,6 +133,11 @@ def mapping_rules(chk):
         evs = o.path.events
         if any(e[0] == "branch" and _mentions_sections(e[1]) and any(s == cfg for s in subterms(e[1])) and e[2] is True for e in evs):
             continue  # rejected earlier
+        if o.kind in ("return", "normal") and not any(e[0] in ("loop-iter", "loop-exit", "loop-cut") for e in evs):
+            conds = "; ".join("%s is %s" % (show(e[1]), e[2]) for e in evs if e[0] == "branch" and e[4] == "forked")
+            chk.bad(r, name, "loading can return without examining the plugins at all (%s): a required plugin whose section is missing is then not reported" % (conds or "unconditionally"), node=fi.node, stmt="plugins-not-examined")
+            ok = False
+            continue
         if not any(e[0] == "loop-iter" for e in evs):
             continue  # zero plugins
         req = [e for e in evs if e[0] == "branch" and any(s[0] == "attr" and s[2] == "required" for s in subterms(e[1]))]
@@ -302,8 +307,27 @@ def loader_rules(chk):
             if isinstance(it_, ast.Name) and it_.id in plugin_maps and isinstance(tgt, ast.Name):
                 section_vars.add(tgt.id)
 
+    # pairs collected first and applied later:  edges = [(before, plugin.section) for ...];  for a, b in edges: ...
+    expr_alias = {}  # loop variable -> the expression it stands for
+    pair_lists = {}
+    for n in ast.walk(fi.node):
+        if isinstance(n, (ast.Assign, ast.AnnAssign)) and n.value is not None:
+            tg = n.targets[0] if isinstance(n, ast.Assign) else n.target
+            v = n.value
+            if isinstance(v, ast.Call) and util.dotted(v.func) in ("list", "tuple") and len(v.args) == 1:
+                v = v.args[0]
+            if isinstance(tg, ast.Name) and isinstance(v, (ast.ListComp, ast.GeneratorExp)) and isinstance(v.elt, ast.Tuple):
+                pair_lists[tg.id] = v
+    for n in ast.walk(fi.node):
+        if isinstance(n, ast.For) and isinstance(n.iter, ast.Name) and n.iter.id in pair_lists and isinstance(n.target, ast.Tuple) and len(n.target.elts) == len(pair_lists[n.iter.id].elt.elts):
+            for t, e in zip(n.target.elts, pair_lists[n.iter.id].elt.elts):
+                if isinstance(t, ast.Name):
+                    expr_alias[t.id] = e
+
     def classify_key(k):
         """'constraint:before' | 'constraint:after' | 'section' | None"""
+        if isinstance(k, ast.Name) and k.id in expr_alias:
+            return classify_key(expr_alias[k.id])
         if isinstance(k, ast.Name) and k.id in constraint_vars:
             return "constraint:" + constraint_vars[k.id]
         if isinstance(k, ast.Name) and k.id in section_vars:
@@ -533,6 +557,44 @@ def constraints_rules(chk):
         if kw.arg in ("before", "after", "required") and names != {kw.arg}:
             chk.bad(r, name, "PluginRequirements(%s=...) is built from the parameter(s) %s" % (kw.arg, sorted(names)), node=ctor, stmt="requirements-%s" % kw.arg)
             ok = False
+    # each constraint set is the parameter's own elements: frozenset(before) / set / tuple / list / the parameter itself,
+    # or a helper that returns exactly that for every iterable that is not a single string
+    CONV = {("glob", "ext:builtins." + n) for n in ("frozenset", "set", "tuple", "list", "sorted")}
+    for kw in ctor.keywords:
+        if kw.arg not in ("before", "after"):
+            continue
+        v = kw.value
+        chk.count()
+        if isinstance(v, ast.Name) and v.id == kw.arg:
+            continue
+        if isinstance(v, ast.Call) and util.dotted(v.func) in ("frozenset", "set", "tuple", "list") and len(v.args) == 1 and isinstance(v.args[0], ast.Name) and v.args[0].id == kw.arg:
+            continue
+        h = prog.functions.get(prog.resolve(fi.module, v.func) or "") if isinstance(v, ast.Call) else None
+        if h is not None and len(v.args) == 1 and isinstance(v.args[0], ast.Name) and v.args[0].id == kw.arg and h.params():
+            P = ("sym", h.params()[0])
+
+            def decide(it, path, term, P=P):
+                if term[0] == "call" and term[1] == ("glob", "ext:builtins.isinstance") and len(term[2]) == 2 and term[2][0] == P and term[2][1] == ("glob", "ext:builtins.str"):
+                    return False  # an iterable of names that is not a lone string
+                return None
+
+            for o in Interp(prog, h, decide=decide).run():
+                chk.count()
+                if o.kind == "raise":
+                    continue
+                rv = strip_sites(o.value) if o.kind == "return" and o.value else None
+                if not (rv == P or (rv is not None and rv[0] == "call" and rv[1] in CONV and list(rv[2]) == [P] and not rv[3])):
+                    conds = "; ".join("%s is %s" % (show(e[1]), e[2]) for e in o.path.events if e[0] == "branch" and e[4] == "forked")
+                    chk.bad(
+                        r,
+                        h.qual,
+                        "for an iterable of names%s the `%s` constraint becomes %s instead of the set of those names: the declared constraints are dropped (and a bogus name is recorded)" % (" (%s)" % conds if conds else "", kw.arg, show(rv) if rv else "nothing"),
+                        node=h.node,
+                        stmt="constraint-set %s" % (show(rv)[:60] if rv else "none"),
+                    )
+                    ok = False
+            continue
+        chk.undecided(r, name, "PluginRequirements(%s=%s) is not a plain container conversion of the parameter" % (kw.arg, util.unparse(v)), node=ctor, aux=True)
     if ctor.args:
         chk.undecided(r, name, "positional PluginRequirements arguments", node=ctor)
         ok = False
@@ -566,6 +628,10 @@ def constraints_rules(chk):
             v = d.get(need)
             if v is None:
                 continue  # no default: every caller must say it
+            if isinstance(v, (ast.Name, ast.Attribute)):
+                mc = prog.module_constant(prog.resolve(fn.module, v))
+                if mc is not None:
+                    v = mc[1]  # a named module-level constant
             if need == "required":
                 good = isinstance(v, ast.Constant) and v.value is False
             else:
